@@ -218,6 +218,34 @@ def driver_correspondence(chk):
                 'replay': f"echo '{json.dumps({'cases': [case]})}' | {common.PY} tools/checks/c03_probe.py {common.REPO} driver"})
             return
 
+def cache_correspondence(chk):
+    """the cache model of Model/CliState.lean against a REAL functools.lru_cache inside the REAL check_all (stub check_file decoding texts
+    through one memoised function): keyed on all inputs (any job count) and keyed on less (sequential: the stale values are deterministic);
+    and the once-flag of Checker.patch_environment against the real class, one fresh process per sequence"""
+    rng = chk.rng
+    cases = []
+    css = ['L1', 'L9', 'L2', 'K8']
+    texts = ['a', 'b', 'c', 'd']
+    for k in range(40 if chk.thorough else 14):
+        n = rng.randint(1, 6)
+        specs = [rng.choice(css) + '/' + '+'.join(rng.choice(texts) for _ in range(rng.randint(1, 3))) for _ in range(n)]
+        mode = 'lossy' if k % 2 == 0 else 'full'
+        cases.append({'mode': mode, 'jobs': 1 if mode == 'lossy' else rng.choice([1, 2, 3]), 'specs': specs})
+    res = probe('cache', {'cases': cases})
+    if 'fatal' in res:
+        chk.broken.append({'kind': 'correspondence', 'stream': 'lru_cache', 'problem': res['fatal'][-800:]})
+    else:
+        lines = [' '.join(['cli', 'seqcache', c['mode'], str(c['jobs']), '.'.join(f'{i}:{i % max(c["jobs"], 1)}' for i in range(len(c['specs']))) or '-'] + c['specs']) for c in cases]
+        impl = ['ok ' + ','.join(r['lines']) if not r['error'] else 'err ' + r['error'].split(':')[0] for r in res['cases']]
+        chk.stream('lru_cache', lines, impl)
+        fresh_values = lambda c: [f"{sp.split('/')[0]}:{t}" for sp in c['specs'] for t in sp.split('/')[1].split('+')]
+        chk.coverage['lru_cache_cases_with_stale_value'] = sum(1 for c, r in zip(cases, res['cases']) if c['mode'] == 'lossy' and r['lines'] != fresh_values(c))
+    seqs = ['c', 'p', 'pc', 'pp', 'cpc', 'ppc', 'pcc', 'cpp', 'pcpc']
+    outs = E.parallel(lambda ops: probe('patch', {'ops': ops}, timeout=60), seqs, workers=WORKERS)
+    lines = ['cli patchseq ' + ops for ops in seqs]
+    impl = [','.join(o['outcomes']) if 'outcomes' in o else 'err ' + str(o.get('fatal'))[-200:] for o in outs]
+    chk.stream('patch_environment', lines, impl)
+
 # ------------------------------------------------------------------------------------------------ main
 
 def main():
@@ -241,6 +269,7 @@ def main():
         suspects += [c['key'] + ' [' + c['role'] + ' not per call]' for c in scan_sites['mut'].creations if not c['perCall']]
         suspects += [s['key'] + ' [nondeterminism: other]' for s in scan_sites['nondet'] if s['kind'] == 'other']
     driver_correspondence(chk)
+    cache_correspondence(chk)
     n_gen, n_corpus = (120, 120) if chk.thorough else (24, 20)
     found = []
     with E.Workdir() as wd:
